@@ -148,14 +148,25 @@ Inductive lres := LOk (v : jval) | LErr (e : load_err).
 
 Section Load.
   Variable jparse : str -> option jval.     (* json.loads, pairs kept raw *)
-  Definition load (s : str) : lres :=
-    match jparse (strip s) with
+  (* everything load_config_string does after the comments are gone *)
+  Definition load_from (stripped : str) : lres :=
+    match jparse stripped with
     | None => LErr ENotJson                 (* json.JSONDecodeError (a ValueError) *)
     | Some v =>
         if has_dup v then LErr EDupKey      (* ValueError from the hook *)
         else match v with JObj _ => LOk v | _ => LErr ENotMapping end
     end.
+  Definition load (s : str) : lres := load_from (strip s).
 End Load.
+
+(* OPEN CHOICE (not fixed by C16): how the comment-free intermediate text renders its line ends.
+   [strip] is the pinned behaviour (every CR / LF becomes one LF).  Allowed: any text that differs from
+   [strip s] only in WHICH line-break character (CR or LF) stands at each line end — e.g. returning a
+   text without any '#' unchanged.  JSON cannot tell the two apart ([nl_blind]); Proofs.v shows that
+   every allowed outcome loads to the same result. *)
+Definition strip_ok (s out : str) : Prop := map fixnl out = strip s.
+Definition nl_blind (jparse : str -> option jval) : Prop :=
+  forall a b, map fixnl a = map fixnl b -> jparse a = jparse b.
 
 (* ------------------------------------------------------------------------------------- *)
 (* Part A.3: dump = json.dumps(cfg, indent=4)                                              *)
@@ -575,12 +586,18 @@ Inductive same_upto (foi : Z -> option str) : jval -> jval -> Prop :=
      ARaw RTupleB = the builtin tuple (parsed like a bare Tuple, but refused by the check);
      AOpt a = Optional[a];  AUnion ms n = Union of two or more non-None members ms (n: None is a member);
      ADict kstr a = Dict[K, a] with kstr = (K is str);
-     AOther = anything neither function recognises (Set[int], int | None, list[int], bytes, ...). *)
+     AOther = anything neither function recognises and that has no supported equivalent (Set[int],
+              bytes, ...): refused;
+     AAlt fam a = another spelling (family fam: 0 = PEP 604 `X | Y`, 1 = PEP 585 `list[X]` ...) of the
+              annotation a.  OPEN CHOICE (not fixed by C16): an implementation either refuses the
+              spelling as unsupported or handles it EXACTLY as a; the policy [pol : nat -> bool] says
+              which, per family.  The code at the time of writing is pol = (fun _ => false). *)
 Inductive rawkind := RList | RDict | RTuple | RTupleB.
 Inductive ann :=
 | AInt | AFloat | AStr | ABool | AAny
 | ARaw (k : rawkind)
 | AOther
+| AAlt (fam : nat) (a : ann)
 | AOpt (a : ann)
 | AUnion (ms : anns) (has_none : bool)
 | AList (a : ann)
@@ -597,6 +614,9 @@ Inductive ckind := CUnion | CNonStrKey | CType.
 Inductive cres := COk | CErr (k : ckind) (p : list cpelem).
 Definition cthen (r k : cres) : cres := match r with COk => k | e => e end.
 
+Section Policy.
+Variable pol : nat -> bool.
+
 (* _check_config_struct_type, in the order of its tests *)
 Fixpoint check (a : ann) (p : list cpelem) {struct a} : cres :=
   match a with
@@ -611,6 +631,7 @@ Fixpoint check (a : ann) (p : list cpelem) {struct a} : cres :=
   | ADict kstr a' => if kstr then check a' (p ++ [CAny]) else CErr CNonStrKey p
   | AStruct fs => check_fields fs p
   | AOther => CErr CType p
+  | AAlt fam a' => if pol fam then check a' p else CErr CType p
   end
 with check_tuple (ms : anns) (i : nat) (p : list cpelem) {struct ms} : cres :=
   match ms with
@@ -630,6 +651,7 @@ Fixpoint denote (a : ann) : option cty :=
   | ARaw RList => Some TRawList | ARaw RDict => Some TRawDict | ARaw RTuple => Some TRawTuple
   | ARaw RTupleB => None
   | AOther => None
+  | AAlt fam a' => if pol fam then denote a' else None
   | AOpt a' => option_map TOpt (denote a')
   | AUnion _ _ => None
   | AList a' => option_map TList (denote a')
@@ -675,6 +697,7 @@ Section ParseAnn.
     | ARaw RDict => parse foi TRawDict d p
     | ARaw RTuple | ARaw RTupleB => parse foi TRawTuple d p
     | AOther => Err Mismatch p
+    | AAlt fam a' => if pol fam then parse_ann a' d p else Err Mismatch p
     | AOpt a' => match d with JNull => Ok VNull | _ => parse_ann a' d p end
     | AUnion ms hn => if hn then match d with JNull => Ok VNull | _ => parse_last ms d p end
                       else parse_last ms d p
@@ -734,6 +757,7 @@ End ParseAnn.
 (* sub-annotations: everything the parser can be called on while parsing for annotation a *)
 Inductive subann : ann -> ann -> Prop :=
 | sa_refl a : subann a a
+| sa_alt b fam a : subann b a -> subann b (AAlt fam a)
 | sa_opt b a : subann b a -> subann b (AOpt a)
 | sa_union b ms hn : subann_anns b ms -> subann b (AUnion ms hn)
 | sa_list b a : subann b a -> subann b (AList a)
@@ -763,6 +787,8 @@ Inductive unsup_at : ann -> list cpelem -> ckind -> Prop :=
 | un_union ms hn : unsup_at (AUnion ms hn) [] CUnion
 | un_key a : unsup_at (ADict false a) [] CNonStrKey
 | un_other : unsup_at AOther [] CType
+| un_alt_off fam a : pol fam = false -> unsup_at (AAlt fam a) [] CType
+| un_alt_on fam a q k : pol fam = true -> unsup_at a q k -> unsup_at (AAlt fam a) q k
 | un_tupleb : unsup_at (ARaw RTupleB) [] CType
 | un_opt a q k : unsup_at a q k -> unsup_at (AOpt a) q k
 | un_list a q k : unsup_at a q k -> unsup_at (AList a) (CAny :: q) k
@@ -770,3 +796,4 @@ Inductive unsup_at : ann -> list cpelem -> ckind -> Prop :=
 | un_vartuple a q k : unsup_at a q k -> unsup_at (AVarTuple a) (CAny :: q) k
 | un_tuple ms i a q k : anth ms i = Some a -> unsup_at a q k -> unsup_at (ATuple ms) (CIdx i :: q) k
 | un_struct fs n a d q k : afield_in fs n a d -> unsup_at a q k -> unsup_at (AStruct fs) (CField n :: q) k.
+End Policy.
